@@ -290,7 +290,8 @@ def judge(family, case, rec):
             rec.count("separates:empty-side-or-everything")
         v = int(rng.integers(p))
         w = int((v + 1) % p)
-        for (S, Aa, B) in (({v}, {v}, {w}), (set(), {v, w}, {w}), ({w}, {v}, {w})):
+        for (S, Aa, B) in (({v}, {v}, {w}), (set(), {v, w}, {w}), ({w}, {v}, {w}),
+                           ({v}, set(), {v, w}), ({v, w}, {w}, set()), ({v}, set(), {v})):      # ... also when one side is empty
             try:
                 r = U.separates(S, Aa, B, A)
                 rec.violation("C15:separates-no-valueerror", family, case,
